@@ -121,7 +121,12 @@ function snapshot(t) { return JSON.stringify(t); }
 base.RAW_OPS['query'] = async (payload) => {
     const c = JSON.parse(payload);
     const A = c.A.map(r => r.map(cell_to_js));
-    const B = (c.B === undefined || c.B === null) ? null : c.B.map(r => r.map(cell_to_js));
+    let B = (c.B === undefined || c.B === null) ? null : c.B.map(r => r.map(cell_to_js));
+    if (c.share_rows) {
+        // value-equal rows become one shared object (and the join table the input table itself when equal)
+        for (let i = 0; i < A.length; i++) for (let j = 0; j < i; j++) if (JSON.stringify(A[i]) === JSON.stringify(A[j])) { A[i] = A[j]; break; }
+        if (B !== null && JSON.stringify(B) === JSON.stringify(A)) B = A;
+    }
     const a_rows = A.slice();                 // identities of the caller's rows
     const snapA = snapshot(A), snapB = snapshot(B);
     const it = new CountingIterator(A, c.header_a || null);
